@@ -16,6 +16,7 @@ R-WRAPPER     the IOAPI wrapper delegates the computation to the base method wit
 NOT decided: equality of the values with the numpy reduction for every shape, reducer and mask; commutation of reducers.
 """
 import ast
+import re
 
 from ..engine import AnalysisError, dotted, iter_stmts, norm, kw, const_str, walk_expr
 from ..report import Finding
@@ -138,6 +139,24 @@ def run(ctx):
             ctx.ok('R-AXISOFVAR', 'axis source', where, norm(idx[0]))
         else:
             ctx.undec('R-AXISOFVAR', 'axis source', where, 'axis lookup not in a recognised form')
+    # ---- axis order: a callable may drop its axis (np.apply_along_axis with a scalar result); processing the last axis first keeps
+    # the numbers of the axes still to come
+    ctx.rule('R-AXISORDER', 'the per-axis loop of applyAlongDimensions runs from the last axis to the first')
+    lp_o = (inner[0] if inner else idxloop)
+    if lp_o is None:
+        ctx.undec('R-AXISORDER', 'axis loop', where, 'loop not recognised')
+    else:
+        it_txt = norm(lp_o.iter)
+        if isinstance(lp_o.iter, ast.Name):
+            defs_ = [st for st in iter_stmts(vl.body) if isinstance(st, ast.Assign) and isinstance(st.targets[0], ast.Name) and st.targets[0].id == lp_o.iter.id]
+            it_txt = norm(defs_[-1].value) if defs_ else it_txt
+            # the reversal may be applied where the name is used
+        rev = '[::-1]' in norm(lp_o.iter) or '[::-1]' in it_txt or 'reversed(' in it_txt or 'reversed(' in norm(lp_o.iter) or bool(re.search(r'range\(.*- 1, -1, -1\)', norm(lp_o.iter)))
+        if rev:
+            ctx.ok('R-AXISORDER', 'axis loop', where, 'iterates %s' % norm(lp_o.iter)[:50])
+        else:
+            ctx.violation(Finding('R-AXISORDER', RP, Q, lp_o, 'the axes are processed first to last (%s): a callable that returns a scalar drops its axis, the numbers of the later axes shift, and a call that '
+                                  'names two dimensions raises or reduces the wrong axis' % norm(lp_o.iter)[:40]))
     # ---- the two call forms
     named = [c for c in ast.walk(vl) if isinstance(c, ast.Call) and isinstance(c.func, ast.Call) and dotted(c.func.func) == 'getattr']
     applyc = [c for c in ast.walk(vl) if isinstance(c, ast.Call) and (dotted(c.func) or '').endswith('apply_along_axis')]
